@@ -12,14 +12,14 @@ git diff -- src Cargo.toml > "$out/patch.diff"
 [ -s "$out/patch.diff" ] || { echo "no change in $wt"; exit 2; }
 cp seeded/demo.rs "$out/demo.rs" 2>/dev/null || cp tests/seeded_demo.rs "$out/demo.rs"
 cp seeded/meta.json "$out/agent_meta.json" 2>/dev/null
-mkdir -p /tmp/seed_aside && mv tests/seeded_demo.rs /tmp/seed_aside/$name.rs
+mkdir -p /tmp/seed_aside && mv tests/seeded_demo.rs /tmp/seed_aside/$name.rs && rm -f my.patch
 s1=$(cargo test --workspace --no-fail-fast --offline 2>&1 | grep -E "^test result" | tr '\n' ' ')
 s2=$(cargo test --offline --features async-vfs,embedded-fs 2>&1 | grep -E "^test result" | tr '\n' ' ')
 mv /tmp/seed_aside/$name.rs tests/seeded_demo.rs
 d1=$(cargo test --offline --features async-vfs,embedded-fs,verif-hooks --test seeded_demo 2>&1 | grep -E "^test result" | tr '\n' ' ')
-git stash push -q -- src Cargo.toml
+git apply -R "$out/patch.diff"
 d2=$(cargo test --offline --features async-vfs,embedded-fs,verif-hooks --test seeded_demo 2>&1 | grep -E "^test result" | tr '\n' ' ')
-git stash pop -q
+git apply "$out/patch.diff"
 python3 - "$out" "$id" "$s1" "$s2" "$d1" "$d2" <<'PY'
 import json,sys,os
 out,id,s1,s2,d1,d2=sys.argv[1:7]
